@@ -204,6 +204,160 @@ theorem graph_false_witness :
   · rw [graphOf, runGraph, addNodes]
     decide
 
+/-- **Each graph is drawn over exactly the relation derived from the source.**  After any run of
+    `register` / `get_node` the forward set `r` of node `a` contains `t` iff `a` has a node and the
+    entity table declares `t` for `a` under `r` (module USE and submodule ancestry, type extension
+    and composition, the shown calls, interface-to-implementation, file dependencies): no link is
+    lost, none is invented, for every creation order and every cyclic relation. -/
+theorem relation_exact (tab : Table) (fuel : Nat) (work : List Node) (nd : NodeData)
+    (h : create tab fuel work {} = some nd) (a t : Node) (r : Rel) :
+    t ∈ fwdOf nd a r ↔ a ∈ nd.created ∧ (r, t) ∈ targets tab a := by
+  rw [mem_fwdOf]
+  exact create_exact tab fuel work {} nd (linksExact_empty tab) h a r t
+
+/-- ... also after the second creation phase (roots of the project-wide call graph). -/
+theorem relation_exact_later (tab : Table) (f1 f2 : Nat) (w1 w2 : List Node) (nd1 nd2 : NodeData)
+    (h1 : create tab f1 w1 {} = some nd1) (h2 : create tab f2 w2 nd1 = some nd2) (a t : Node) (r : Rel) :
+    t ∈ fwdOf nd2 a r ↔ a ∈ nd2.created ∧ (r, t) ∈ targets tab a := by
+  rw [mem_fwdOf]
+  exact create_exact tab f2 w2 nd1 nd2 (create_exact tab f1 w1 {} nd1 (linksExact_empty tab) h1) h2 a r t
+
+/-- every registered entity has a node object (so `relation_exact` speaks about all of them) -/
+theorem registered_have_nodes (tab : Table) (fuel : Nat) (work : List Node) (nd : NodeData)
+    (h : create tab fuel work {} = some nd) : ∀ x ∈ work, x ∈ nd.created :=
+  (create_created tab fuel work {} nd h).2
+
+/-- **Interface-to-implementation, generic interfaces (decision table read from the source).**
+    Whatever Python class represents a specific procedure — subroutine, function, interface body
+    of a separate module procedure or of an external procedure, `module procedure`
+    implementation, type-bound procedure: every class `ford.graphs.is_proc` accepts — the
+    guard of `ProcNode.__init__` links it when it is visible and never when it is hidden;
+    names of external procedures (strings) are always linked. -/
+theorem iface_rule_specific :
+    ∀ r ∈ C13Gen.ifaceRules,
+      (r.isProc = true → r.modproc = true ∧ r.modprocHidden = false) ∧ (r.isStr = true → r.modproc = true) := by
+  decide
+
+/-- a specific procedure that `correlate` did not match (`None`) is never linked, and neither is
+    the placeholder `False` / `True` of a separate module procedure without implementation -/
+theorem iface_rule_unmatched :
+    (ruleOfIn C13Gen.ifaceRules 0).modproc = false ∧ (ruleOfIn C13Gen.ifaceRules 0).modprocHidden = false
+      ∧ (ruleOfIn C13Gen.ifaceRules 1).impl = false ∧ (ruleOfIn C13Gen.ifaceRules 2).impl = false := by
+  decide
+
+/-- **Interface-to-implementation, separate module procedures (partial).**  Among the classes
+    that carry the `module` marker (those whose instances `correlate` can record as the
+    implementation of a module procedure interface), every subclass of `FortranProcedure` is
+    linked when visible and never when hidden.  Excluded, by the decidable hypothesis
+    `isProcedure`: `FortranModuleProcedureImplementation` (`module procedure name … end procedure`),
+    which carries the marker but is no `FortranProcedure` — finding `C13-modproc-impl-no-edge`,
+    see `iface_impl_witness`. -/
+theorem iface_rule_impl_partial :
+    ∀ r ∈ C13Gen.ifaceRules, r.declaresModule = true → r.isProcedure = true →
+      r.impl = true ∧ r.implHidden = false := by
+  decide
+
+/-- no class has a hidden implementation linked, the excluded one included -/
+theorem iface_rule_impl_hidden :
+    ∀ r ∈ C13Gen.ifaceRules, r.isProc = true → r.implHidden = false := by
+  decide
+
+/-- **A generic interface shows every specific procedure.**  For every table, an interface
+    entity links each visible specific procedure `correlate` matched (any class `is_proc` accepts,
+    or an external name) ... -/
+theorem iface_specific_linked (tab : Table) (i m : Node)
+    (hk : (ent tab i).kind = .proc) (hi : (ent tab i).isIface = true)
+    (hm : m ∈ (ent tab i).modprocs)
+    (hp : (ruleOfIn C13Gen.ifaceRules (ent tab m).cls).isProc = true
+          ∨ (ruleOfIn C13Gen.ifaceRules (ent tab m).cls).isStr = true)
+    (hv : (ent tab m).visible = true) :
+    (Rel.iface, m) ∈ targets tab i := by
+  rw [mem_targets_iface hk hi]
+  have key := ruleOfIn_all C13Gen.ifaceRules
+    (fun r => (r.isProc = true → r.modproc = true ∧ r.modprocHidden = false) ∧ (r.isStr = true → r.modproc = true))
+    iface_rule_specific (by decide) (ent tab m).cls
+  have hl : specificLinked C13Gen.ifaceRules tab m = true := by
+    simp only [specificLinked, hv, if_true]
+    rcases hp with hp | hp
+    · exact (key.1 hp).1
+    · exact key.2 hp
+  simp only [ifaceTargets, List.mem_append, List.mem_filter]
+  exact Or.inl ⟨hm, hl⟩
+
+/-- ... never a hidden one, ... -/
+theorem iface_specific_hidden (tab : Table) (i m : Node)
+    (hk : (ent tab i).kind = .proc) (hi : (ent tab i).isIface = true)
+    (hp : (ruleOfIn C13Gen.ifaceRules (ent tab m).cls).isProc = true)
+    (hv : (ent tab m).visible = false) :
+    (Rel.iface, m) ∉ targets tab i := by
+  rw [mem_targets_iface hk hi]
+  have k1 := ruleOfIn_all C13Gen.ifaceRules
+    (fun r => (r.isProc = true → r.modproc = true ∧ r.modprocHidden = false) ∧ (r.isStr = true → r.modproc = true))
+    iface_rule_specific (by decide) (ent tab m).cls
+  have k2 := ruleOfIn_all C13Gen.ifaceRules (fun r => r.isProc = true → r.implHidden = false)
+    iface_rule_impl_hidden (by decide) (ent tab m).cls
+  simp only [ifaceTargets, List.mem_append, List.mem_filter, specificLinked, implLinked, hv,
+    Bool.false_eq_true, if_false, (k1.1 hp).2, k2 hp, and_false, or_self, not_false_eq_true]
+
+/-- ... and nothing but its specific procedures and its implementation: no interface edge is invented. -/
+theorem iface_links_sound (tab : Table) (i m : Node)
+    (hk : (ent tab i).kind = .proc) (hi : (ent tab i).isIface = true)
+    (h : (Rel.iface, m) ∈ targets tab i) :
+    m ∈ (ent tab i).modprocs ∨ (ent tab i).impl = some m := by
+  rw [mem_targets_iface hk hi] at h
+  simp only [ifaceTargets, List.mem_append, List.mem_filter] at h
+  rcases h with h | h
+  · exact Or.inl h.1
+  · right
+    cases hx : (ent tab i).impl with
+    | none => simp [hx, optList] at h
+    | some x => simp [hx, optList] at h; rw [h.1]
+
+/-- **The edge is drawn in both graphs.**  Once the interface `i` has a node, the dashed edge
+    `i -> m` to each such specific procedure is what the "calls" graph of `i` draws, and the very
+    same edge is what the "called by" graph of `m` draws. -/
+theorem iface_edge_drawn (tab : Table) (fuel : Nat) (work : List Node) (nd : NodeData)
+    (h : create tab fuel work {} = some nd) (i m : Node) (hw : i ∈ work)
+    (hk : (ent tab i).kind = .proc) (hi : (ent tab i).isIface = true)
+    (hm : m ∈ (ent tab i).modprocs)
+    (hp : (ruleOfIn C13Gen.ifaceRules (ent tab m).cls).isProc = true
+          ∨ (ruleOfIn C13Gen.ifaceRules (ent tab m).cls).isStr = true)
+    (hv : (ent tab m).visible = true) (hg : (ent tab m).kind ≠ .prog) :
+    (m, ⟨i, m, .dashed⟩) ∈ succOf tab nd .calls i ∧ (i, ⟨i, m, .dashed⟩) ∈ succOf tab nd .calledBy m := by
+  have hf : m ∈ fwdOf nd i .iface :=
+    (relation_exact tab fuel work nd h i m .iface).2
+      ⟨registered_have_nodes tab fuel work nd h i hw, iface_specific_linked tab i m hk hi hm hp hv⟩
+  have hc := create_consistent tab fuel work {} nd consistent_empty h
+  have hg' : ((ent tab m).kind == Kind.prog) = false := by simpa using hg
+  constructor
+  · simp only [succOf, List.mem_append, mem_map_pair]
+    exact Or.inr ⟨hf, trivial⟩
+  · simp only [succOf, hg', Bool.false_eq_true, if_false, List.mem_append, mem_map_pair, inv_iff_fwd hc]
+    exact Or.inr ⟨hf, trivial⟩
+
+/-- Witness for the class excluded in `iface_rule_impl_partial`: with the row the unchanged tree
+    yields for `FortranModuleProcedureImplementation` (a procedure class carrying the `module`
+    marker, not linked as an implementation), the visible implementation `1` of the module
+    procedure interface `0` gets no interface-to-implementation link. -/
+theorem iface_impl_witness :
+    let rules : List C13Gen.IfaceRule :=
+      [{ name := "FortranModuleProcedureInterface", isProc := true, modproc := true },
+       { name := "FortranModuleProcedureImplementation", isProc := true, declaresModule := true,
+         modproc := true, impl := false }]
+    let tab : Table := [{ kind := .proc, isIface := true, cls := 0, impl := some 1 }, { kind := .proc, cls := 1 }]
+    (ent tab 1).visible = true ∧ ifaceTargets rules tab 0 = [] := by
+  decide
+
+/-- non-vacuity: a generic interface `0` over a subroutine `1`, an interface body `2` and a hidden
+    procedure `3` links `1` and `2` under the generated table. -/
+example :
+    let sub := (C13Gen.ifaceRules.map (·.name)).idxOf "FortranSubroutine"
+    let ifc := (C13Gen.ifaceRules.map (·.name)).idxOf "FortranModuleProcedureInterface"
+    let tab : Table := [{ kind := .proc, isIface := true, cls := ifc, modprocs := [1, 2, 3] },
+      { kind := .proc, cls := sub }, { kind := .proc, isIface := true, cls := ifc },
+      { kind := .proc, cls := sub, visible := false }]
+    ifaceTargets C13Gen.ifaceRules tab 0 = [1, 2] := by decide
+
 /-- non-vacuity: an invisible procedure `1` between `0`'s call and the visible `2`, with a
     cycle `1 -> 1`: the call is shown as a call to `2`. -/
 example :
